@@ -329,6 +329,16 @@ pub fn main_for<C: Check>(check: C) -> ! {
             }
             0
         }
+        Some("--scenario") => {
+            // child side of --locate-abort: print the scenario of one run index as JSON
+            let i: u64 = args.get(1).and_then(|s| s.parse().ok()).unwrap_or(0);
+            let tier = tier_from_env(Tier::Quick);
+            let seed = env_u64("VERIF_SEED").unwrap_or(DEFAULT_SEED);
+            let mut g = Xo::derive(seed, check.id(), 0, i);
+            let sc = check.generate(&mut g, tier, i);
+            println!("{}", serde_json::to_string(&sc).unwrap_or_default());
+            0
+        }
         Some("--locate-abort") => {
             let tier = match args.get(1).map(String::as_str) {
                 Some("thorough") => Tier::Thorough,
@@ -906,8 +916,26 @@ fn locate_abort<C: Check>(check: &C, tier: Tier) -> i32 {
         }
     }
     let run = lo;
-    let mut g = Xo::derive(seed, check.id(), 0, run);
-    let sc = check.generate(&mut g, tier, run);
+    // regenerate the scenario in a child as well: if the *generator* is what dies, that is a
+    // defect of the harness, not of the code under test
+    let scenario_json = std::env::current_exe().ok().and_then(|exe| {
+        std::process::Command::new(exe)
+            .arg("--scenario")
+            .arg(run.to_string())
+            .env("VERIF_TIER", tier.name())
+            .env("VERIF_SEED", seed.to_string())
+            .output()
+            .ok()
+            .filter(|o| o.status.success())
+            .and_then(|o| serde_json::from_slice::<Value>(&o.stdout).ok())
+    });
+    let Some(sc) = scenario_json else {
+        eprintln!(
+            "HARNESS-ERROR: property={} generating the scenario of run {run} kills the process: a defect of the harness' generator, not a finding",
+            check.id()
+        );
+        return 2;
+    };
     let file = root.join("replays").join(format!("{}-abort-{}-{}.json", check.id(), seed, run));
     let rf = ReplayFile {
         property: check.id().to_string(),
@@ -918,7 +946,7 @@ fn locate_abort<C: Check>(check: &C, tier: Tier) -> i32 {
         run,
         tier: tier.name().to_string(),
         shrink_steps: 0,
-        scenario: serde_json::to_value(&sc).unwrap_or(Value::Null),
+        scenario: sc,
     };
     let _ = std::fs::create_dir_all(root.join("replays"));
     let _ = std::fs::write(&file, serde_json::to_string_pretty(&rf).unwrap_or_default());
